@@ -85,11 +85,47 @@ def _pretty_b(value, ctx):
     return P.pretty_call(ctx, B, value.x)
 
 
+import abc as _abc
+
+
+class ShapeABC(_abc.ABC):
+    pass
+
+
+class V:
+    """a VIRTUAL subclass of an ABC that has a printer (singledispatch honours ABC.register)"""
+    __module__ = '__main__'
+    __repr__ = P.pretty_repr
+
+
+class RB:
+    __module__ = '__main__'
+
+
+class R(RB):
+    """a real subclass of a directly registered class"""
+    __module__ = '__main__'
+    __repr__ = P.pretty_repr
+
+
+class N:
+    """registered by qualified name only"""
+    __module__ = '__main__'
+    __repr__ = P.pretty_repr
+
+
+ShapeABC.register(V)
+P.register_pretty(ShapeABC)(lambda v, ctx: P.pretty_call(ctx, type(v)))
+P.register_pretty(RB)(lambda v, ctx: P.pretty_call(ctx, type(v)))
+P.register_pretty('__main__.N')(lambda v, ctx: P.pretty_call(ctx, type(v)))
+
+
 # chosen (by search) so that 60 of the 64 full configurations give pairwise different texts
 VALUE = Box({'top words words words words': [1, 2, 3],
              'm': _nest('deep words words words words words', 7),
              'a': {'b': {'c': {'d': {'e': {'f': {'g': 1}}}}}},
-             'p': Plain(B(1))})
+             'p': Plain(B(1)),
+             'q': Plain((V(), R(), N()))})
 
 
 def reference_table():
@@ -224,9 +260,41 @@ def show(ops):
     return '; '.join(out)
 
 
+def pretty_repr_registered(chk):
+    """'pretty_repr returns that text for registered types' for every way a type can be registered: directly, through
+    a registered base class, as a virtual subclass of a registered ABC, by qualified name; under several defaults."""
+    saved = P._default_config
+    insts = [('directly registered', lambda: Box([1, 2])), ('directly registered (short)', lambda: B(1)),
+             ('subclass of a registered class', R), ('virtual subclass of a registered ABC', V),
+             ('registered by name', N)]
+    try:
+        for defaults in ({}, {'width': 24}, {'width': 24, 'ribbon_width': 16}, {'depth': 8, 'sort_dict_keys': True}):
+            P._default_config = dict(saved)
+            P.set_default_config(**defaults)
+            for how, mk in insts:
+                x = mk()
+                desc = {'type': type(x).__qualname__, 'registered': how, 'defaults': defaults}
+                chk.cov['evaluations'] += 1
+                try:
+                    with warnings.catch_warnings(record=True) as wl:
+                        warnings.simplefilter('always')
+                        got = repr(x)
+                        want = P.pformat(x)
+                except Exception as e:  # noqa
+                    chk.violation('C18.pretty_repr', 'pretty_repr / pformat raised %r for a %s type' % (e, how), desc)
+                    continue
+                msgs = [str(w.message)[:120] for w in wl]
+                if got != want or any('no pretty printer is registered' in m for m in msgs):
+                    chk.violation('C18.pretty_repr', 'pretty_repr returned %r for a %s type, pformat returns %r (warnings: %r)'
+                                  % (got, how, want, msgs), desc)
+    finally:
+        P._default_config = saved
+
+
 def check_c18(chk, args):
     q = chk.tier == 'quick'
     rng = chk.rng
+    pretty_repr_registered(chk)
     table, texts = reference_table()
     chk.cov['reference_texts_distinct'] = len(texts)
     if len(texts) < 48:
@@ -292,7 +360,7 @@ def check_c18(chk, args):
                 {'ops': ops, 'events': c['events'], 'bad': sorted(bad)})
         if any(o['op'] == 'set' and o['args'] for o in ops):
             chk.nontrivial(show(ops))
-    chk.cov['evaluations'] = len(cases)
+    chk.cov['evaluations'] += len(cases)
     chk.cov['traces_validated_against_impl'] = len(cases)
     chk.cov['rule'] = ('histories of <= 2 set_default_config calls (arbitrary key subsets over two-valued domains) '
                        'interleaved with calls through each of the six entry points with arbitrary explicit subsets '
